@@ -209,6 +209,8 @@ type undoWorld struct {
 	// an executed entry addressed such a dead container with an operation the model (one heap entry
 	// per identity) cannot follow: Go runs it invisibly on the dead twin copy
 	asetStale bool
+	// old identities of array elements an undo/redo re-inserted under a fresh createdAt
+	oldTop    map[string]bool
 	taint     string // tag of the listed finding that made an Undo/Redo/Update fail on this trace
 	c15       bool
 	staleSeen bool
@@ -228,7 +230,7 @@ type undoWorld struct {
 
 func newUndoWorld(c *Ctx) *undoWorld {
 	dumpOmitRemoved = false
-	return &undoWorld{c: c, reps: map[string]*undoRep{}, deadIDs: map[string]bool{}, asetDeadIDs: map[string]bool{}, changes: map[string]*chInfo{}}
+	return &undoWorld{c: c, reps: map[string]*undoRep{}, deadIDs: map[string]bool{}, asetDeadIDs: map[string]bool{}, oldTop: map[string]bool{}, changes: map[string]*chInfo{}}
 }
 
 // cmd / obs write to the command and observation streams unless the trace is muted: once the history
@@ -437,6 +439,7 @@ func (w *undoWorld) staleEntry(entry []document.HistoryOperation) bool {
 		case *operations.ArraySet:
 			ref(o.CreatedAt())
 			w.asetDeadIDs[o.Value().CreatedAt().Key()] = true
+			w.oldTop[o.Value().CreatedAt().Key()] = true
 			if cont, ok := o.Value().(crdt.Container); ok {
 				cont.Descendants(func(el crdt.Element, _ crdt.Container) bool {
 					w.asetDeadIDs[el.CreatedAt().Key()] = true
@@ -447,6 +450,7 @@ func (w *undoWorld) staleEntry(entry []document.HistoryOperation) bool {
 			ref(o.PrevCreatedAt())
 			now[o.Value().CreatedAt().Key()] = true
 			w.deadIDs[o.Value().CreatedAt().Key()] = true
+			w.oldTop[o.Value().CreatedAt().Key()] = true
 			if cont, ok := o.Value().(crdt.Container); ok {
 				cont.Descendants(func(el crdt.Element, _ crdt.Container) bool {
 					w.deadIDs[el.CreatedAt().Key()] = true
@@ -867,7 +871,12 @@ func (w *undoWorld) sync(rep *undoRep) {
 			// a delivered operation addresses the old identity (or a descendant) of an array element
 			// an undo/redo re-identified: Go runs it on the dead twin copy, the model has one entry
 			k := op.ParentCreatedAt().Key()
-			if reidOld && (w.deadIDs[k] || w.asetDeadIDs[k]) && !w.mute {
+			// (also in the repaired tree, for the OLD TOP identity only: a peer that had not seen the
+			// re-insertion still addresses the tombstone; Go applies the operation to the tombstone's
+			// own children, which share their createdAt with the copy's - invisible, both replicas
+			// converge, but the model's single heap entry per identity would be hit. Model gap, not a
+			// finding: see Model/Undo.lean header.)
+			if ((reidOld && (w.deadIDs[k] || w.asetDeadIDs[k])) || w.oldTop[k]) && !w.mute {
 				w.mute = true
 				w.c.Count("muted-traces:remote-into-reid")
 			}
@@ -1083,6 +1092,15 @@ func applySpec(c *Ctx, rep *undoRep, root *json.Object, spec string) {
 		arr().AddNewObject().SetInteger("x", next())
 	case "aaddc":
 		arr().AddNewCounter(crdt.IntegerCnt, int32(next()))
+	case "ainx": // overwrite member x of the first element (an object)
+		a := arr()
+		if a.Len() > 0 {
+			if _, ok := a.Get(0).(*crdt.Object); ok {
+				a.GetObject(0).SetInteger("x", next())
+				return
+			}
+		}
+		a.AddInteger(next())
 	case "ain0":
 		a := arr()
 		if a.Len() > 0 {
